@@ -201,16 +201,18 @@ class MessageInterface(ABC):
         of this distribution with another distribution of the same
         type
         """
+        others = [
+            dist
+            for dist in self._iter_dists(dists)
+            if isinstance(dist, MessageInterface)
+        ]
         new_params = sum(
-            (
-                dist.natural_parameters
-                for dist in self._iter_dists(dists)
-                if isinstance(dist, MessageInterface)
-            ),
-            self.natural_parameters,
+            (dist.natural_parameters for dist in others), self.natural_parameters,
         )
+        log_norm = self.log_norm + sum(dist.log_norm for dist in others)
         return self.from_natural_parameters(
             new_params,
+            log_norm=log_norm,
             id_=self.id,
             lower_limit=self.lower_limit,
             upper_limit=self.upper_limit,
